@@ -456,8 +456,22 @@ def Tmp.frame (p : Tmp) : R Frame := do
   let pl ← p.payload
   pure ⟨svcTMP, p.reliable, p.opcodeBytes, false, pl⟩
 
-/-- `TextMessageProtocol.from_bytes` (endian = "big", the only way `HDAP.from_bytes` calls it) -/
-def Tmp.fromBytes (d : Bytes) : R (Option Tmp) := do
+/-- the locals `TextMessageProtocol.from_bytes` computes before it branches on the opcode -/
+structure TmpHead where
+  rel : Bool
+  conf : Bool
+  ho : Bool
+  op : Nat
+  /-- `payload_idx` -/
+  pi : Nat
+  /-- `option_data_start_idx` (negative when the announced option length exceeds the payload) -/
+  optStart : Int
+  opt : Option Bytes
+deriving DecidableEq, Repr
+
+/-- first half of `TextMessageProtocol.from_bytes` (endian = "big", the only way `HDAP.from_bytes`
+calls it): flags, opcode, payload index, option data -/
+def Tmp.parseHead (d : Bytes) : R TmpHead := do
   let (rel, svc) ← reliableAndServiceB (sl d 0 1)
   if svc ≠ some svcTMP then throw .assertion
   let op ← enumOf tmpValues (← idx d 2)
@@ -469,38 +483,48 @@ def Tmp.fromBytes (d : Bytes) : R (Option Tmp) := do
   let olen := ofBe (sl d 5 7)
   let optStart : Int := if ho then (pi : Int) + plen - olen - 2 else (pi : Int) + plen
   let opt : Option Bytes := if ho then some (slI d optStart ((pi : Int) + plen - 2)) else none
+  pure ⟨rel, conf, ho, op, pi, optStart, opt⟩
+
+/-- second half: the `if/elif` chain over the opcode (falls off the end with `None`) -/
+def Tmp.parseBody (d : Bytes) (h : TmpHead) : R (Option Tmp) :=
+  let pi := h.pi
   let rid := ofBe (sl d pi (pi + 4))
-  if Tmp.isMessage op then do
+  if Tmp.isMessage h.op then do
     let dst ← RadioIp.fromBytes (sl d (pi + 4) (pi + 8))
     let src ← RadioIp.fromBytes (sl d (pi + 8) (pi + 12))
-    pure (some ⟨rel, conf, ho, op, rid, some dst, some src, slI d ((pi : Int) + 12) optStart, opt, none, []⟩)
-  else if op = tmpSendGroupMessageAck then do
+    pure (some ⟨h.rel, h.conf, h.ho, h.op, rid, some dst, some src, slI d ((pi : Int) + 12) h.optStart, h.opt, none, []⟩)
+  else if h.op = tmpSendGroupMessageAck then do
     let dst ← RadioIp.fromBytes (sl d (pi + 4) (pi + 8))
     let rc ← enumOf tmpResultValues (← idx d (pi + 8))
-    pure (some ⟨rel, conf, ho, op, rid, some dst, none, [], opt, some rc, []⟩)
-  else if op = tmpSendPrivateMessageAck then do
+    pure (some ⟨h.rel, h.conf, h.ho, h.op, rid, some dst, none, [], h.opt, some rc, []⟩)
+  else if h.op = tmpSendPrivateMessageAck then do
     let dst ← RadioIp.fromBytes (sl d (pi + 4) (pi + 8))
     let src ← RadioIp.fromBytes (sl d (pi + 8) (pi + 12))
     let rc ← enumOf tmpResultValues (← idx d (pi + 12))
-    pure (some ⟨rel, conf, ho, op, rid, some dst, some src, [], opt, some rc, []⟩)
-  else if op = tmpPrivateShortData then do
+    pure (some ⟨h.rel, h.conf, h.ho, h.op, rid, some dst, some src, [], h.opt, some rc, []⟩)
+  else if h.op = tmpPrivateShortData then do
     let dst ← RadioIp.fromBytes (sl d (pi + 4) (pi + 8))
     let src ← RadioIp.fromBytes (sl d (pi + 8) (pi + 12))
-    pure (some ⟨rel, conf, ho, op, rid, some dst, some src, [], opt, none, slI d ((pi : Int) + 12) optStart⟩)
-  else if op = tmpPrivateShortDataAck then do
+    pure (some ⟨h.rel, h.conf, h.ho, h.op, rid, some dst, some src, [], h.opt, none, slI d ((pi : Int) + 12) h.optStart⟩)
+  else if h.op = tmpPrivateShortDataAck then do
     let dst ← RadioIp.fromBytes (sl d (pi + 4) (pi + 8))
     let src ← RadioIp.fromBytes (sl d (pi + 8) (pi + 12))
     let rc ← enumOf tmpResultValues (← idx d (pi + 12))
-    pure (some ⟨rel, conf, ho, op, rid, some dst, some src, [], opt, some rc, []⟩)
-  else if op = tmpGroupShortData then do
+    pure (some ⟨h.rel, h.conf, h.ho, h.op, rid, some dst, some src, [], h.opt, some rc, []⟩)
+  else if h.op = tmpGroupShortData then do
     let dst ← RadioIp.fromBytes (sl d (pi + 4) (pi + 8))
     let src ← RadioIp.fromBytes (sl d (pi + 8) (pi + 12))
-    pure (some ⟨rel, conf, ho, op, rid, some dst, some src, [], opt, none, slI d ((pi : Int) + 12) optStart⟩)
-  else if op = tmpGroupShortDataAck then do
+    pure (some ⟨h.rel, h.conf, h.ho, h.op, rid, some dst, some src, [], h.opt, none, slI d ((pi : Int) + 12) h.optStart⟩)
+  else if h.op = tmpGroupShortDataAck then do
     let dst ← RadioIp.fromBytes (sl d (pi + 4) (pi + 8))
     let rc ← enumOf tmpResultValues (← idx d (pi + 8))
-    pure (some ⟨rel, conf, ho, op, rid, some dst, none, [], opt, some rc, []⟩)
+    pure (some ⟨h.rel, h.conf, h.ho, h.op, rid, some dst, none, [], h.opt, some rc, []⟩)
   else pure none
+
+/-- `TextMessageProtocol.from_bytes` -/
+def Tmp.fromBytes (d : Bytes) : R (Option Tmp) := do
+  let h ← Tmp.parseHead d
+  Tmp.parseBody d h
 
 /-! ## RCP — radio control protocol (little endian) -/
 
